@@ -121,7 +121,9 @@ class Lib:
             if ctx.decide(o.is_none):
                 raise self.raise_ext("AttributeError")
             return self.e.getattr(ctx, o.val, name)
-        if isinstance(o, (V.BytesOf, V.BytesV)):
+        from . import dynmodel as _dm
+
+        if isinstance(o, (V.BytesOf, V.BytesV, _dm.DynV)):
             return V.Builtin("method." + name, bound=o)
         if isinstance(o, V.EnumV):
             if name == "value":
@@ -168,6 +170,10 @@ class Lib:
     # ------------------------------------------------------------------ isinstance for builtin types
     def isinstance_ext(self, ctx, v, name: str):
         name = name.split(".")[-1]
+        from . import dynmodel as _dm
+
+        if isinstance(v, _dm.DynV):
+            return _dm.isinstance_dyn(v, name)
         if isinstance(v, OptV):
             from .symexec import speclib_and
 
@@ -505,6 +511,11 @@ class Lib:
 
     def contains(self, ctx, container, item):
         from .symexec import speclib_or
+
+        if type(container).__name__ == "DynV":
+            from . import dynmodel as _dm
+
+            return _dm.contains(self, ctx, container, item)
         if isinstance(container, PyDict) and getattr(container, "opaque", False):
             raise EngineLimit("read of a dict whose contents are not tracked (symbolic keys)")
 
@@ -537,6 +548,10 @@ class Lib:
 
     # ------------------------------------------------------------------ subscripts
     def getitem(self, ctx, o, k):
+        if type(o).__name__ == "DynV":
+            from . import dynmodel as _dm
+
+            return _dm.getitem(self, ctx, o, k)
         if isinstance(o, PyDict) and getattr(o, "opaque", False):
             raise EngineLimit("read of a dict whose contents are not tracked (symbolic keys)")
         if isinstance(o, V.BytesV):
@@ -679,6 +694,10 @@ class Lib:
             from . import bytesmodel
 
             fn2 = getattr(bytesmodel, "bi_" + name.replace(".", "_"), None)
+            if fn2 is None:
+                from . import dynmodel
+
+                fn2 = getattr(dynmodel, "bi_" + name.replace(".", "_"), None)
             if fn2 is not None:
                 return fn2(self, ctx, *args, **kwargs)
         if fn is None:
@@ -723,6 +742,10 @@ class Lib:
             raise EngineLimit("read of a dict whose contents are not tracked (symbolic keys)")
         if isinstance(x, V.BytesV):
             return x.length
+        if type(x).__name__ == "DynV":
+            from . import dynmodel as _dm
+
+            return _dm.length(self, ctx, x)
         if isinstance(x, V.BytesOf):
             return self.utf8_len(ctx, x.s)
         if isinstance(x, PyList):
@@ -957,6 +980,10 @@ class Lib:
     def bi_list(self, ctx, it=None):
         if it is None:
             return PyList([])
+        if type(it).__name__ == "DynV":
+            from . import dynmodel as _dm
+
+            return _dm.to_list(self, ctx, it)
         if isinstance(it, SymSeq):
             return SymSeq(it.arr, it.length, it.kind, fresh=True)
         if isinstance(it, V.MappedIter):
@@ -1030,6 +1057,8 @@ class Lib:
         return out
 
     def bi_enumerate(self, ctx, it, start=0):
+        if isinstance(it, SymSeq):
+            return V.EnumSeq(it, start)
         items = self.e.iter_concrete(ctx, it)
         return PyList([(i + start, x) for i, x in enumerate(items)])
 
@@ -1068,6 +1097,14 @@ class Lib:
             return V.ConcreteIter(self.e.iter_concrete(ctx, it))
         if isinstance(it, SymSet):
             return it
+        if isinstance(it, SymSeq):
+            return V.SeqIter(it)
+        if type(it).__name__ == "DynV":
+            from . import dynmodel as _dm
+
+            if ctx.decide(_dm.tag_f(it.term) == _dm.T_DICT):
+                return V.SeqIter(_dm.keys_seq(ctx, it))
+            raise EngineLimit("iter() of a non-dict dynamic value")
         raise EngineLimit("iter(%r)" % (it,))
 
     def find_first(self, ctx, lf, default):
@@ -1136,6 +1173,13 @@ class Lib:
             if not default:
                 raise EngineLimit("next(filter(...)) without a default")
             return self.find_first(ctx, it, default[0])
+        if isinstance(it, V.SeqIter):
+            if ctx.decide(it.seq.length > it.pos):
+                it.pos += 1
+                return it.seq.at(ctx, z3.IntVal(it.pos - 1))
+            if default:
+                return default[0]
+            raise self.raise_ext("StopIteration")
         if isinstance(it, V.ConcreteIter):
             if it.pos < len(it.items):
                 it.pos += 1
@@ -1431,6 +1475,10 @@ class Lib:
             from . import bytesmodel
 
             fn2 = getattr(bytesmodel, "m_%s_%s" % (self.kind_of(o), name), None)
+            if fn2 is None:
+                from . import dynmodel
+
+                fn2 = getattr(dynmodel, "m_%s_%s" % (self.kind_of(o), name), None)
             if fn2 is not None:
                 return fn2(self, ctx, o, *args, **kwargs)
             raise EngineLimit("method %s of %r" % (name, o))
@@ -1440,6 +1488,8 @@ class Lib:
     def kind_of(o):
         if isinstance(o, V.BytesV):
             return "bytes"
+        if type(o).__name__ == "DynV":
+            return "dyn"
         from . import strmodel as _sm
 
         if isinstance(o, _sm.RegexV):
